@@ -8,6 +8,7 @@ Structural clauses decided, for each of the three filter.rs copies (tcp, http, t
  R5 half-open range conversion: `end-1` only for non-empty ranges; an empty range must stay a constraint that matches nothing
  R6 argument routing: (src, dst) passed in that order at every call
  R7 the builders store what the caller configured (as parsed), nothing rewrites a value on its way into the lists
+ R7 (also) source_only / destination_only / any_port set exactly the documented flags in all three copies
 """
 from ..engine import decision as D
 from ..engine import q as Q
